@@ -400,6 +400,19 @@ func (c *regexpSimplifyChecker) canMerge(x, y syntax.Expr) bool {
 	}
 }
 
+// hasCountedRepeat reports whether e contains a {n,m} repetition.
+func (c *regexpSimplifyChecker) hasCountedRepeat(e syntax.Expr) bool {
+	if e.Op == syntax.OpRepeat {
+		return true
+	}
+	for _, a := range e.Args {
+		if c.hasCountedRepeat(a) {
+			return true
+		}
+	}
+	return false
+}
+
 // hasLiteralBrace reports whether e contains a `{` or `}` that is
 // an ordinary character (outside of a char class).
 func (c *regexpSimplifyChecker) hasLiteralBrace(e syntax.Expr) bool {
@@ -454,6 +467,11 @@ func (c *regexpSimplifyChecker) canMatchEmpty(e syntax.Expr) bool {
 
 func (c *regexpSimplifyChecker) canCombine(x, y syntax.Expr) (threshold int, ok bool) {
 	if x.Op != y.Op || c.hasCapture(x) {
+		return 0, false
+	}
+	if c.hasCountedRepeat(x) {
+		// Go limits nested counted repetitions to 1000 in total:
+		// `(?:a{501})(?:a{501})` compiles, `(?:a{501}){2}` doesn't.
 		return 0, false
 	}
 
